@@ -377,6 +377,9 @@ def run(tier, seed, replay):
                 # the sandbox root stands in for '/': mutating it is outside the sandbox
                 t0[0] in ('remove', 'remove_all', 'move_p', 'copy', 'symlink', 'chmod', 'mkfile_m', 'write_all', 'append_all', 'mkfile') and any(
                     a.startswith('x') and lexical(parse(pre)[0], bytes.fromhex(a[1:]).decode('utf8', 'replace')) == '2f' for a in t0[1:3]))
+            if not outside and t0[0] in ('copy', 'copy_b') and vlib._copy_into_itself(req, 'x ## cwd ' + parse(pre)[0]):
+                outside = True      # source and destination overlap: each backend reads entries the same call creates, in its own iteration order
+                cuts['overlapping_copy'] = cuts.get('overlapping_copy', 0) + 1
             if outside:
                 # not judged; the history continues only while the two real backends still hold the same tree
                 cuts['outside_domain'] = cuts.get('outside_domain', 0) + 1
